@@ -36,19 +36,28 @@ def func_records(cid, variant, obs, scheme="4K"):
     return out
 
 
-def run(records, name):
-    """-> (list of AV dicts, TlcResult)"""
+def run(records, name, chunk=12000):
+    """-> (list of AV dicts, TlcResult); the records are checked in chunks (TLC keeps the whole input file in memory)"""
     d = common.workdir("asm_" + name)
-    p = os.path.join(d, "funcs.ndjson")
-    with open(p, "w") as f:
-        for r in records:
-            f.write(json.dumps(r) + "\n")
     avs = []
 
     def on(tag, o):
         avs.append(o)
     cfg = os.path.join(d, "Asm.cfg")
     open(cfg, "w").write("SPECIFICATION Spec\nINVARIANT Report\nCHECK_DEADLOCK FALSE\n")
-    res = common.run_tlc("Asm", cfg=cfg, env={"FUNCS": p}, name="asm_" + name, tags={"AV"}, on_line=on)
-    common.require_ok(res, "Asm")
-    return avs, res
+    total = None
+    for ci in range(0, max(1, len(records)), chunk):
+        p = os.path.join(d, "funcs_%d.ndjson" % ci)
+        with open(p, "w") as f:
+            for r in records[ci:ci + chunk]:
+                f.write(json.dumps(r) + "\n")
+        res = common.run_tlc("Asm", cfg=cfg, env={"FUNCS": p}, name="asm_" + name, tags={"AV"}, on_line=on, timeout=3000)
+        common.require_ok(res, "Asm")
+        os.remove(p)
+        if total is None:
+            total = res
+        else:
+            total.distinct += res.distinct
+            total.generated += res.generated
+            total.wall += res.wall
+    return avs, total
